@@ -33,7 +33,13 @@ func samplesClass(n int) string {
 	case n <= 50:
 		return "11-50"
 	}
-	return "51-200"
+	if n <= 200 {
+		return "51-200"
+	}
+	if n < 2048 {
+		return "201-2047"
+	}
+	return "2048+"
 }
 
 func (s spec) key() string {
@@ -103,6 +109,14 @@ func chooseSpec(r *rand.Rand, gi int) spec {
 		s.Types, s.Samples, s.Depth = 4, 200, "over" // the largest class
 	case 9:
 		s.Depth, s.Rec, s.Samples, s.Funcs = "over", "direct", max(s.Samples, 2), 2
+	}
+	// big flat profiles (a heap or CPU profile of a large service has thousands of samples): shallow
+	// stacks keep them cheap
+	switch gi % 50 {
+	case 17:
+		s.Samples, s.Depth = 2048+r.Intn(3000), "shallow"
+	case 41:
+		s.Samples, s.Depth = 201+r.Intn(1800), "shallow"
 	}
 	if s.Samples == 0 {
 		s.Depth0 = false
